@@ -44,6 +44,9 @@ struct Plan {
     shutdowns: usize,
     by_drop: bool,
     at_ms: u64,
+    /// capacity of the manager's mailbox (default 128): with a small one, API calls issued at the same
+    /// instant fill it before the shutdown request is handed over
+    mailbox: Option<usize>,
 }
 
 fn scenario(run: &mut Run, rng: &mut Rng, case: u64) -> anyhow::Result<()> {
@@ -61,6 +64,7 @@ fn scenario(run: &mut Run, rng: &mut Rng, case: u64) -> anyhow::Result<()> {
         shutdowns: if by_drop { 0 } else { 1 + rng.below(3) as usize },
         by_drop,
         at_ms: 50 + rng.below(3000),
+        mailbox: *rng.pick(&[None, None, Some(1usize), Some(2)]),
     };
     let p = plan.clone();
     let rt = paused_rt();
@@ -69,6 +73,7 @@ fn scenario(run: &mut Run, rng: &mut Rng, case: u64) -> anyhow::Result<()> {
         let mut cfg = config_idle(30_000);
         cfg.shutdown_idle_timeout_ms = p.sit_ms;
         cfg.connect_timeout_ms = Some(8_000);
+        cfg.connection_manager_channel_capacity = p.mailbox;
         let s = start_node_with(&fabric, 1, key_of(seed, 1), "verif", None, cfg)?;
         let s_id = s.id;
         let s_addr = s.addr;
@@ -128,6 +133,13 @@ fn scenario(run: &mut Run, rng: &mut Rng, case: u64) -> anyhow::Result<()> {
         } else {
             let net = net_opt.as_ref().unwrap().clone();
             let mut hs = vec![];
+            if p.concurrent_calls {
+                // issued before the shutdown calls, at the same instant: they sit in the mailbox first
+                for k in 0..3u16 {
+                    let n = net.clone();
+                    calls.push((format!("connect#{k}"), tokio::spawn(async move { res_class(&tokio::time::timeout(Duration::from_secs(200), n.connect(Fabric::addr(90 + k))).await) })));
+                }
+            }
             for _ in 0..p.shutdowns {
                 let n = net.clone();
                 hs.push(tokio::spawn(async move { res_class(&tokio::time::timeout(Duration::from_secs(200), n.shutdown()).await) }));
@@ -303,14 +315,22 @@ fn scenario(run: &mut Run, rng: &mut Rng, case: u64) -> anyhow::Result<()> {
 fn rebind_real(run: &mut Run, n: usize) -> anyhow::Result<()> {
     let rt = tokio::runtime::Builder::new_multi_thread().worker_threads(2).enable_all().build()?;
     for i in 0..n {
-        let r: anyhow::Result<(bool, bool, u128)> = rt.block_on(async move {
+        let expired_bound = (i / 2) % 2 == 1;
+        let r: anyhow::Result<(bool, bool, u128, bool)> = rt.block_on(async move {
             let mut c = anemo::Config::default();
-            c.shutdown_idle_timeout_ms = Some(300);
+            // every other pair: an idle-wait bound that expires while the connection is still in its closing period
+            c.shutdown_idle_timeout_ms = Some(if (i / 2) % 2 == 1 { 1 } else { 300 });
             let a = Network::bind("127.0.0.1:0").private_key([3; 32]).server_name("verif").config(c.clone()).start(Svc::new())?;
             let b = Network::bind("127.0.0.1:0").private_key([4; 32]).server_name("verif").config(c).start(Svc::new())?;
             let addr = a.local_addr();
-            if i % 2 == 0 {
-                b.connect(addr).await?;
+            match i % 4 {
+                0 | 3 => {
+                    b.connect(addr).await?;
+                }
+                2 => {
+                    a.connect(b.local_addr()).await?;
+                }
+                _ => {}
             }
             let t0 = std::time::Instant::now();
             let ok = if i % 3 == 2 {
@@ -329,11 +349,21 @@ fn rebind_real(run: &mut Run, n: usize) -> anyhow::Result<()> {
             };
             let took = t0.elapsed().as_millis();
             let rebound = std::net::UdpSocket::bind(addr).is_ok();
-            Ok((ok, rebound, took))
+            let mut rebound_later = rebound;
+            if !rebound {
+                tokio::time::sleep(Duration::from_millis(500)).await;
+                rebound_later = std::net::UdpSocket::bind(addr).is_ok();
+            }
+            Ok((ok, rebound, took, rebound_later))
         });
-        let (ok, rebound, took) = r?;
+        let (ok, rebound, took, rebound_later) = r?;
+        // connected and the idle wait (1 ms) expired before the endpoint was idle
+        let idle_wait_expired = expired_bound && i % 4 != 1;
         if !ok || !rebound {
-            run.oracle_fail(json!({"kind": "after shutdown the socket address cannot be re-bound at once", "case": i, "shutdown_ok": ok, "rebound": rebound, "took_ms": took as u64}));
+            run.oracle_fail(json!({"kind": "after shutdown the socket address cannot be re-bound at once", "idle_wait_expired": idle_wait_expired, "case": i, "shutdown_ok": ok, "rebound": rebound, "took_ms": took as u64}));
+        }
+        if !rebound_later {
+            run.oracle_fail(json!({"kind": "the socket address is still in use 500 ms after shutdown completed (the socket was never released)", "case": i, "shutdown_idle_timeout_ms": if expired_bound { 1 } else { 300 }}));
         }
         run.count("rebind-real-socket", if rebound { "rebound" } else { "address-in-use" });
         run.eval(&format!("rebind{i}"), true);
@@ -434,7 +464,7 @@ pub fn run_c08(run: &mut Run) -> anyhow::Result<()> {
     if p > 0 {
         run.oracle_fail(json!({"kind": "panic during shutdown scenarios", "count": p}));
     }
-    rebind_real(run, if q { 6 } else { 40 })?;
+    rebind_real(run, if q { 8 } else { 40 })?;
     teardown_sweep(run)?;
     Ok(())
 }
